@@ -40,7 +40,7 @@ class TaskGroup(TaskConstraint):
         Union[FixedDurationTask, ZeroDurationTask, VariableDurationTask]
     ]
     time_interval: Tuple[int, int] = Field(default=None)
-    time_interval_length: int = Field(default=0)
+    time_interval_length: Union[int, None] = Field(default=None)
 
     def __init__(self, **data) -> None:
         super().__init__(**data)
@@ -58,12 +58,18 @@ class TaskGroup(TaskConstraint):
             self._scheduled_assertion = [
                 self._end <= self._start + self.time_interval_length
             ]
+        else:  # no time window
+            self._scheduled_assertion = []
 
         for task in self.list_of_tasks:
-            self._scheduled_assertion += [
+            task_in_group = z3.And(
                 task._start >= self._start,
                 task._end <= self._end,
-            ]
+            )
+            # an optional task belongs to the group only if it is scheduled
+            if task.optional:
+                task_in_group = z3.Implies(task._scheduled, task_in_group)
+            self._scheduled_assertion.append(task_in_group)
 
 
 class UnorderedTaskGroup(TaskGroup):
@@ -84,18 +90,19 @@ class OrderedTaskGroup(TaskGroup):
         super().__init__(**data)
         # add a constraint between each task
         for i in range(len(self.list_of_tasks) - 1):
+            task_i, task_j = self.list_of_tasks[i], self.list_of_tasks[i + 1]
             if self.kind == "lax":
-                self._scheduled_assertion += [
-                    self.list_of_tasks[i]._end <= self.list_of_tasks[i + 1]._start
-                ]
+                order_assertion = task_i._end <= task_j._start
             elif self.kind == "strict":
-                self._scheduled_assertion += [
-                    self.list_of_tasks[i]._end < self.list_of_tasks[i + 1]._start
-                ]
+                order_assertion = task_i._end < task_j._start
             else:  # kind == 'tight':
-                self._scheduled_assertion += [
-                    self.list_of_tasks[i]._end == self.list_of_tasks[i + 1]._start
-                ]
+                order_assertion = task_i._end == task_j._start
+            # the order applies only if both tasks are scheduled
+            if task_i.optional or task_j.optional:
+                order_assertion = z3.Implies(
+                    z3.And(task_i._scheduled, task_j._scheduled), order_assertion
+                )
+            self._scheduled_assertion.append(order_assertion)
 
         self.set_z3_assertions(z3.And(self._scheduled_assertion))
 
